@@ -133,7 +133,18 @@ pub fn check_sender(tr: &Trace) -> (Vec<MViol>, Summary) {
                 push(out, mv("W2-resume-position", &["C08"], format!("after ACK({k}) transmission resumed at block {} instead of {}", burst[0].0, k + 1), &[]));
             }
         }
-        let _ = acked;
+        // blocks per window: a transmission of new blocks only, after a full-window acknowledgement (or at the start),
+        // carries exactly the acknowledged number of blocks (or all that are left)
+        if !has_old && !prev_partial && !prev_dup && ended.is_none() {
+            let mut distinct: Vec<u64> = burst.iter().map(|b| b.0).collect();
+            distinct.sort();
+            distinct.dedup();
+            let want = (cfg.ws as u64).min(kfinal.saturating_sub(acked));
+            let fresh_start = prev_raised_to.map(|k| k == acked).unwrap_or(hi_before == 0);
+            if fresh_start && want > 0 && (distinct.len() as u64) < want {
+                push(out, mv("W6-window-not-filled", &["C09"], format!("after ACK({acked}) only {} new blocks were transmitted although a window of {} blocks was acknowledged and {} blocks are left", distinct.len(), cfg.ws, kfinal.saturating_sub(acked)), &[("ws", json!(cfg.ws))]));
+            }
+        }
         *last_burst_t = Some(burst.last().unwrap().2);
         burst.clear();
     };
@@ -310,6 +321,7 @@ pub fn check_receiver(tr: &Trace) -> (Vec<MViol>, Summary) {
     let snap_mode = if cfg.snapshot_tail { Snapshot::Tail } else { Snapshot::Full };
     let mut acked_hi: u64 = 0;
     let mut send_failed = false;
+    let mut clean_since_ack = true;
     for ev in &tr.events {
         match ev {
             Event::Send { bytes, file, .. } => {
@@ -341,6 +353,12 @@ pub fn check_receiver(tr: &Trace) -> (Vec<MViol>, Summary) {
                         if !ok {
                             push(&mut out, mv("U2-ack-before-stored", &["C02"], format!("at the emission of ACK({ka}) the file (len {:?}) does not hold exactly blocks 1..j for any j in {ka}..={last_in_seq} (expected len {})", file.map(|f| f.0), refr.block_ends[ka as usize]), &[]));
                         }
+                        // blocks per window: with nothing but in-order blocks since the last acknowledgement, the next one is
+                        // due exactly when the acknowledged window is full (or at the final block), not earlier
+                        if clean_since_ack && ka > acked_hi && ka - acked_hi < cfg.ws as u64 && !(refr.done && ka == last_in_seq) {
+                            push(&mut out, mv("W5-ack-before-window-full", &["C09"], format!("ACK({ka}) emitted after only {} consecutive in-order blocks (previous ACK {acked_hi}) although a window of {} blocks was acknowledged", ka - acked_hi, cfg.ws), &[("ws", json!(cfg.ws))]));
+                        }
+                        clean_since_ack = true;
                         if ka > acked_hi {
                             acked_hi = ka;
                         }
@@ -370,6 +388,7 @@ pub fn check_receiver(tr: &Trace) -> (Vec<MViol>, Summary) {
                 let failure = is_failure_answer(Role::Receiver, answer, refr.next);
                 match answer {
                     Answer::Timeout => {
+                        clean_since_ack = false;
                         consecutive_timeouts += 1;
                         if consecutive_timeouts > MAX_TOLERATED_SILENCE {
                             push(&mut out, mv("T5-unbounded-retry", &["C07"], format!("worker still receiving after {consecutive_timeouts} consecutive timeouts"), &[]));
@@ -382,6 +401,8 @@ pub fn check_receiver(tr: &Trace) -> (Vec<MViol>, Summary) {
                         }
                         if refr.deliver(bytes, cfg.blk) {
                             unacked += 1;
+                        } else {
+                            clean_since_ack = false;
                         }
                     }
                 }
